@@ -82,7 +82,12 @@ def impl_ticking(arg):
 def pred_ticking(arg, out):
     """With a moving clock the identifier must still be the interval of ONE instant between the first and the last clock read of the call."""
     t0, step = arg
+    # the instants the call read are re-observed here (deterministic clock), so that the predicate can be evaluated on any stored
+    # output, in any order
+    again = impl_ticking(arg)
     reads = getattr(impl_ticking, "last_reads", None) or [t0]
+    if out is not None and list(out) != list(again):
+        return f"the call is not deterministic under the scripted clock: {out} then {again}"
     lo, hi = reads[0] // 100 + EPOCH, reads[-1] // 100 + EPOCH
     cands = {tuple(spec(lo)), tuple(spec(hi))}
     # every L2 boundary between lo and hi starts a new candidate interval
